@@ -14,6 +14,12 @@ R09.5  node collections derived from the slots (node counts, node lists) name
        every node once whatever the order of the slots
 R09.6  a launcher which names no node accepts a task only after an exact
        comparison of the slot's node name with the local node name(s)
+R09.7  launcher selection is history independent: nothing reachable from
+       find_launcher / get_launcher changes the launch order, the launcher
+       table, or an object they alias
+R09.8  the number of ranks a command asks for is the number of slots / ranks,
+       never an average of ranks over nodes or a number of distinct nodes; a
+       constant rank count goes with a host list which has one entry per rank
 """
 
 import ast
@@ -23,7 +29,7 @@ import operator
 from ..model import (walk, dotted, call_name, kwarg, unparse, short, UNKNOWN,
                      root_name, AnalysisError, calls_in, stores_in_target)
 from ..cfg import cfg_of
-from ..flow import Deps, guards, must_pass
+from ..flow import Deps, guards, must_pass, reaching_defs
 from .. import idioms as I
 
 LM_REL  = 'agent/launch_method/base.py'
@@ -361,6 +367,27 @@ class Graph:
         return out
 
 
+def graph(prog, K, entries, implicit=True, control=True):
+    """Graph, built once per program / class / entries / mode"""
+    cache = prog.__dict__.setdefault('_c09_graphs', {})
+    key = (K.where, tuple(entries), implicit, control)
+    if key not in cache:
+        cache[key] = Graph(prog, K, entries, implicit, control)
+    return cache[key]
+
+
+def place_pred(G, w):
+    """memoised predicate: local `name` of function w derives from a node
+    name / node index of the placement"""
+    memo = {}
+
+    def pd(name):
+        if name not in memo:
+            memo[name] = bool(G.marks(G.closure([(w, name)]), ('place',)))
+        return memo[name]
+    return pd
+
+
 def self_attr_of(target, alias):
     """attribute of the launcher object a store goes through, or None"""
     e = target
@@ -492,8 +519,8 @@ def r09_1(prog, rep, classes, rid='R09.1', minimum=81):
              'into a command: the command depends on the task at hand only',
              minimum=minimum)
     for K in classes:
-        G  = Graph(prog, K, QUERY, implicit=True, control=True)
-        GV = Graph(prog, K, QUERY, implicit=False, control=False)
+        G  = graph(prog, K, QUERY, implicit=True, control=True)
+        GV = graph(prog, K, QUERY, implicit=False, control=False)
         sinks = [('FILE', '')]
         tasksrc = set()
         for q in QUERY:
@@ -605,7 +632,7 @@ def r09_2(prog, rep, classes, rid='R09.2', minimum=13):
             cl_f = prog.find_method(K, 'can_launch')
             okc = False
             if cl_f is not None:
-                G = Graph(prog, K, ['can_launch'])
+                G = graph(prog, K, ['can_launch'])
                 cl = G.closure([('RET', cl_f.where)])
                 okc = bool(G.marks(cl, ('place',)))
             rep.check(okc, rid, f,
@@ -622,7 +649,7 @@ def r09_2(prog, rep, classes, rid='R09.2', minimum=13):
                       history='task placed by the scheduler on node B while '
                       'the agent runs on node A: the process starts on A')
             continue
-        G = Graph(prog, K, ['get_launch_cmds'])
+        G = graph(prog, K, ['get_launch_cmds'])
         cl = G.closure([('RET', f.where), ('FILE', '')])
         m = G.marks(cl, ('place',))
         rep.stat('R09.2 graph nodes', len(G.e))
@@ -753,7 +780,7 @@ def r09_3(prog, rep, classes, rid='R09.3', minimum=13):
             continue
         # value dependence only: a raise guarded by len(slots) is a refusal,
         # not a way of counting
-        G = Graph(prog, K, ['get_launch_cmds'], implicit=False, control=False)
+        G = graph(prog, K, ['get_launch_cmds'], implicit=False, control=False)
         cl = G.closure([('RET', f.where), ('FILE', '')])
         m = G.marks(cl, ('ranks', 'len', 'iter'))
         if m:
@@ -1238,8 +1265,9 @@ def classify_nodes(f, e, _seen=()):
     return None
 
 
-def classify_name(f, name, _seen=()):
-    """classification of a local by the way it is built"""
+def classify_name(f, name, _seen=(), defs_too=True):
+    """classification of a local by the way it is built (defs_too=False: by
+    the statements which fill it in place only, not by what it is assigned)"""
     g = cfg_of(f)
     smap = I.stmt_node_map(g)
     kinds = []
@@ -1252,8 +1280,9 @@ def classify_name(f, name, _seen=()):
                  (isinstance(v, ast.Call) and dotted(v.func).split('.')[-1] in
                   ('dict', 'defaultdict', 'OrderedDict', 'Counter'))
                  for v in defs)
-    for v in defs:
-        if reads_place(v) or (isinstance(v, ast.Name)):
+    for v in defs if defs_too else ():
+        if reads_place(v) or (isinstance(v, ast.Name)) or \
+                reads_place_or_local(f, v):
             k = classify_nodes(f, v, _seen)
             if k:
                 kinds.append(k)
@@ -1408,7 +1437,7 @@ def r09_5(prog, rep, classes, rid='R09.5', minimum=13, floor=5):
         if f0 is None or always_raises(f0):
             rep.ok(rid, K, '%s: builds no command' % K.name)
             continue
-        G = Graph(prog, K, ['get_launch_cmds'])
+        G = graph(prog, K, ['get_launch_cmds'])
         used = G.closure([('RET', f0.where), ('FILE', '')])
         for w in sorted(G.funcs):
             f = G.funcs[w]
@@ -1416,8 +1445,7 @@ def r09_5(prog, rep, classes, rid='R09.5', minimum=13, floor=5):
                 continue
             rep.saw(f)
             seen = set()
-            _PLACE_DERIVED[f.where] = (lambda name, w=w, G=G: bool(G.marks(
-                G.closure([(w, name)]), ('place',))))
+            _PLACE_DERIVED[f.where] = place_pred(G, w)
             # (a) collections the code itself reduces to nodes
             names = set()
             for n in walk(f.node, nested=True):
@@ -1685,6 +1713,1050 @@ def r09_6(prog, rep, classes, rid='R09.6', minimum=1):
 
 
 # ------------------------------------------------------------------------------
+# R09.7  launcher selection does not depend on earlier tasks
+#
+# The launch order and the launcher table of the resource manager are
+# configuration: they are set up once (_prepare_launch_methods) and only read
+# afterwards.  Whatever is reachable from the per-task entry points must not
+# change them - neither by a store, nor by a mutator call, nor through an
+# object they alias (self._launch_order IS the list of the resource
+# configuration), nor by handing them to a function which changes its argument.
+#
+SEL_ENTRIES = ('find_launcher', 'get_launcher')
+
+# library functions which change their first argument in place
+INPLACE_FUNCS = {'shuffle', 'heapify', 'heappush', 'heappop', 'heapreplace',
+                 'heappushpop', 'insort', 'insort_left', 'insort_right'}
+
+# wrappers which hand out the very elements of their argument
+_ELEM_WRAPPERS = ('list', 'tuple', 'sorted', 'reversed', 'iter')
+
+
+def _sub_key(sl):
+    if isinstance(sl, ast.Constant) and isinstance(sl.value, (str, int)):
+        return sl.value
+    return '*'
+
+
+def key_paths(e, env):
+    """access paths (tuples of keys below a root) of the objects expression e
+    may denote - the object itself, not a copy of it.  x.k, x['k'] and
+    x.get('k') are the same step (configuration objects are dict-like with
+    attribute access)."""
+    if isinstance(e, ast.Name):
+        if e.id == 'self':
+            return {('self',)}
+        return set(env.get(e.id, ()))
+    if isinstance(e, ast.Attribute):
+        return {p + (e.attr,) for p in key_paths(e.value, env)}
+    if isinstance(e, ast.Subscript):
+        if isinstance(e.slice, ast.Slice):
+            return set()                                   # a copy
+        k = _sub_key(e.slice)
+        return {p + (k,) for p in key_paths(e.value, env)}
+    if isinstance(e, ast.Call) and isinstance(e.func, ast.Attribute) and \
+            e.func.attr in ('get', 'setdefault') and e.args:
+        k = _sub_key(e.args[0])
+        out = {p + (k,) for p in key_paths(e.func.value, env)}
+        if len(e.args) > 1:
+            out |= key_paths(e.args[1], env)
+        return out
+    if isinstance(e, ast.BoolOp):
+        out = set()
+        for v in e.values:
+            out |= key_paths(v, env)
+        return out
+    if isinstance(e, ast.IfExp):
+        return key_paths(e.body, env) | key_paths(e.orelse, env)
+    if isinstance(e, ast.NamedExpr):
+        return key_paths(e.value, env)
+    return set()
+
+
+def _elem_binds(target, it):
+    """[(name, container expr)]: names a loop binds to elements of a container"""
+    for _ in range(4):
+        if isinstance(it, ast.Call) and isinstance(it.func, ast.Name) and \
+                it.func.id in _ELEM_WRAPPERS and len(it.args) == 1:
+            it = it.args[0]
+        elif isinstance(it, ast.Subscript) and isinstance(it.slice, ast.Slice):
+            it = it.value
+        else:
+            break
+    second = None
+    if isinstance(target, (ast.Tuple, ast.List)) and len(target.elts) == 2 \
+            and isinstance(target.elts[1], ast.Name):
+        second = target.elts[1].id
+    if isinstance(it, ast.Call) and isinstance(it.func, ast.Name) and \
+            it.func.id == 'enumerate' and it.args:
+        return [(second, it.args[0])] if second else []
+    if isinstance(it, ast.Call) and isinstance(it.func, ast.Attribute) and \
+            not it.args:
+        if it.func.attr == 'items':
+            return [(second, it.func.value)] if second else []
+        if it.func.attr == 'values' and isinstance(target, ast.Name):
+            return [(target.id, it.func.value)]
+        return []
+    if isinstance(target, ast.Name):
+        return [(target.id, it)]
+    return []
+
+
+def path_env(fnode, seed=None):
+    """{local: key paths}: locals bound exactly once, to a path / an element of
+    a path"""
+    cnt, vals, elems = {}, [], []
+    for n in walk(fnode, nested=True):
+        if isinstance(n, ast.Assign):
+            for t in n.targets:
+                for x in stores_in_target(t):
+                    cnt[x] = cnt.get(x, 0) + 1
+                if isinstance(t, ast.Name):
+                    vals.append((t.id, n.value))
+        elif isinstance(n, ast.AnnAssign) and n.value is not None:
+            for x in stores_in_target(n.target):
+                cnt[x] = cnt.get(x, 0) + 1
+            if isinstance(n.target, ast.Name):
+                vals.append((n.target.id, n.value))
+        elif isinstance(n, ast.NamedExpr):
+            cnt[n.target.id] = cnt.get(n.target.id, 0) + 1
+            vals.append((n.target.id, n.value))
+        elif isinstance(n, ast.AugAssign):
+            # (canonical form of `x = x + e`: x may be a new object afterwards)
+            for x in stores_in_target(n.target):
+                cnt[x] = cnt.get(x, 0) + 2
+        elif isinstance(n, (ast.For, ast.comprehension)):
+            for x in stores_in_target(n.target):
+                cnt[x] = cnt.get(x, 0) + 1
+            elems += _elem_binds(n.target, n.iter)
+        elif isinstance(n, ast.withitem) and n.optional_vars is not None:
+            for x in stores_in_target(n.optional_vars):
+                cnt[x] = cnt.get(x, 0) + 2
+    env = dict(seed or {})
+    for x in env:
+        cnt[x] = cnt.get(x, 0) + 1                  # parameters: bound on entry
+    for _ in range(4):
+        for name, v in vals:
+            if cnt.get(name) == 1 and name not in (seed or {}):
+                env[name] = key_paths(v, env)
+        for name, c in elems:
+            if cnt.get(name) == 1 and name not in (seed or {}):
+                env[name] = {p + ('*',) for p in key_paths(c, env)}
+    return {k: v for k, v in env.items() if v}
+
+
+def object_writes(fnode, env):
+    """[(kind, key paths of the object written INTO, paths of the slot that is
+    rebound, target, stmt)] for every write below fnode.  A mutator call, a
+    subscript store / del and an augmented assignment change the object; a
+    plain attribute assignment rebinds the slot."""
+    out = []
+    for kind, target, stmt in launcher_stores(fnode):
+        if isinstance(target, str):                      # setattr / delattr
+            out.append((kind, set(), {('self', target)}, target, stmt))
+        elif kind == 'mutate':
+            out.append((kind, key_paths(target, env), set(), target, stmt))
+        elif isinstance(target, ast.Subscript):
+            out.append((kind, key_paths(target.value, env), set(), target,
+                        stmt))
+        elif kind == 'aug':
+            p = key_paths(target, env)
+            out.append((kind, p, p, target, stmt))
+        else:
+            out.append((kind, set(), key_paths(target, env), target, stmt))
+    # (`alias += [..]` on a local alias is not counted: the canonical form of
+    # the sources spells the harmless rebinding `alias = alias + [..]` the
+    # same way)
+    for n in walk(fnode, nested=True):
+        if isinstance(n, ast.Call):
+            d = dotted(n.func)
+            if d and d.split('.')[-1] in INPLACE_FUNCS and n.args and \
+                    d.split('.')[0] != 'self':
+                out.append(('mutate', key_paths(n.args[0], env), set(),
+                            n.args[0], n))
+    return out
+
+
+def show_path(p):
+    out = p[0]
+    for k in p[1:]:
+        out += '.%s' % k if isinstance(k, str) and k.isidentifier() \
+            else '[%r]' % (k,)
+    return out
+
+
+def selection_aliases(prog, K, attrs):
+    """{path: attr}: objects of the configuration which a selection attribute
+    is set to without copying, anywhere in the class"""
+    out = {}
+    for k in prog.mro(K):
+        for m in k.methods.values():
+            env = None
+            for n in walk(m.node, nested=True):
+                if not isinstance(n, (ast.Assign, ast.AnnAssign)) or \
+                        n.value is None:
+                    continue
+                tg = n.targets if isinstance(n, ast.Assign) else [n.target]
+                for t in tg:
+                    if isinstance(t, ast.Attribute) and \
+                            isinstance(t.value, ast.Name) and \
+                            t.value.id == 'self' and t.attr in attrs:
+                        if env is None:
+                            env = path_env(m.node)
+                        for p in key_paths(n.value, env):
+                            if len(p) > 2 and p[0] == 'self':
+                                out[p] = t.attr
+    return out
+
+
+def param_map(f, call, g):
+    """[(parameter of g, argument expr)] of a resolved call"""
+    params = list(g.params)
+    via_obj = isinstance(call.func, ast.Attribute) and (
+        (isinstance(call.func.value, ast.Name) and
+         call.func.value.id in ('self', 'cls')) or
+        isinstance(call.func.value, ast.Call))
+    if via_obj and not is_static(g) and params:
+        params = params[1:]
+    out = []
+    for i, a in enumerate(call.args):
+        if isinstance(a, ast.Starred) or i >= len(params):
+            break
+        out.append((params[i], a))
+    for k in call.keywords:
+        if k.arg in params:
+            out.append((k.arg, k.value))
+    return out
+
+
+def flow_sources(f, g, expr, node_id, _seen=None):
+    """what the value of `expr`, evaluated at cfg node `node_id`, is computed
+    from, following the definitions which reach that node: {'self.x',
+    'param:p', 'global:n'}"""
+    seen = set() if _seen is None else _seen
+    out = set()
+    params = set(f.params)
+    for n in walk(expr, nested=True):
+        if isinstance(n, ast.Attribute) and isinstance(n.value, ast.Name) \
+                and n.value.id == 'self':
+            out.add('self.' + n.attr)
+        if not (isinstance(n, ast.Name) and isinstance(n.ctx, ast.Load)) or \
+                n.id in ('self', 'cls'):
+            continue
+        defs = reaching_defs(g, n.id, node_id)
+        if not defs:
+            out.add(('param:' if n.id in params else 'global:') + n.id)
+            continue
+        if n.id in params:
+            out.add('param:' + n.id)            # (may still hold the argument)
+        for dn, v in defs:
+            if (n.id, dn.id) in seen:
+                continue
+            seen.add((n.id, dn.id))
+            if v is None and dn.kind == 'for':
+                v = dn.ast.iter
+            elif v is None and isinstance(dn.ast, (ast.Assign, ast.AugAssign)):
+                v = dn.ast.value
+                if isinstance(dn.ast, ast.AugAssign):
+                    out |= flow_sources(f, g, dn.ast.target, dn.id, seen) \
+                        if not isinstance(dn.ast.target, ast.Name) else set()
+            if v is not None:
+                out |= flow_sources(f, g, v, dn.id, seen)
+    return out
+
+
+def store_history(GV, f, kind, target, stmt, a, tasksrc):
+    """history_dependence, and for plain stores confirmed along the
+    definitions which really reach the store (a local which is re-used for
+    something else later in the function does not count)"""
+    why = history_dependence(GV, f, kind, target, stmt, a, tasksrc)
+    if not why or kind != 'assign':
+        return why
+    g = cfg_of(f)
+    cn = I.stmt_node_map(g).get(id(stmt))
+    if cn is None:
+        return why
+    vals = []
+    if isinstance(stmt, (ast.Assign, ast.AnnAssign)) and \
+            stmt.value is not None:
+        vals.append(stmt.value)
+    elif isinstance(stmt, ast.Call):
+        vals += stmt.args[2:]
+    e = target
+    while isinstance(e, (ast.Subscript, ast.Attribute)):
+        if isinstance(e, ast.Subscript):
+            vals.append(e.slice)
+        e = e.value
+    src_v, src_c = set(), set()
+    for v in vals:
+        src_v |= flow_sources(f, g, v, cn.id)
+    for t in enclosing_tests(f.node, stmt):
+        src_c |= flow_sources(f, g, t, cn.id)
+    w = f.where
+
+    def param_reaches(srcs, pred):
+        for x in srcs:
+            if x.startswith('param:'):
+                q = (w, x[6:])
+                if pred(q) or any(pred(y) for y in GV.closure([q])):
+                    return True
+        return False
+
+    pre = 'self.' + a
+    if pre in src_v or param_reaches(
+            src_v, lambda q: q[0] == '' and (q[1] == pre or
+                                             q[1].startswith(pre + '[') or
+                                             q[1].startswith(pre + '.'))):
+        return 'the stored value depends on the previous value'
+    if param_reaches(src_v | src_c, lambda q: q in tasksrc):
+        return 'what is stored depends on the task'
+    return None
+
+
+def r09_7(prog, rep, rid='R09.7', minimum=2):
+    rep.rule(rid, 'launcher selection is history independent: nothing '
+             'reachable from ResourceManager.find_launcher / get_launcher '
+             'changes the launch order or the launcher table (store, mutator '
+             'call, write through an alias such as the configured order list, '
+             'or a callee which changes the argument it is handed)',
+             minimum=minimum)
+    base = prog.cls(*RM)
+    done = set()
+    for K in [base] + [k for k in prog.subclasses(base, strict=True)]:
+        G = graph(prog, K, SEL_ENTRIES, implicit=True, control=True)
+        sig = frozenset(G.funcs)
+        if not sig or sig in done:
+            continue
+        done.add(sig)
+        GV = graph(prog, K, SEL_ENTRIES, implicit=False, control=False)
+        sinks, tasksrc = [], set()
+        for q in SEL_ENTRIES:
+            f = prog.find_method(K, q)
+            if f is not None:
+                sinks.append(('RET', f.where))
+                tasksrc |= {(f.where, p) for p in f.params
+                            if p not in ('self', 'cls')}
+        attrs = {l[5:].split('[')[0].split('.')[0]
+                 for w, l in G.closure(sinks)
+                 if w == '' and l.startswith('self.')}
+        if not attrs:
+            raise AnalysisError('UNRECOGNISED-IDIOM %s: the launcher selection '
+                                'reads no attribute of the resource manager'
+                                % K.name)
+        state = {('self', a): a for a in attrs}
+        alias = selection_aliases(prog, K, attrs)
+        rep.stat('R09.7 selection attributes', len(attrs))
+        rep.stat('R09.7 aliased configuration objects', len(alias))
+        for w in sorted(G.funcs):
+            f = G.funcs[w]
+            rep.saw(f)
+            env = path_env(f.node)
+            hits = {}
+
+            def hit(p, kind, target, stmt, why):
+                a = state.get(p) or alias.get(p)
+                what = 'self.%s' % a if p in state else \
+                    '%s (the object self.%s is set to)' % (show_path(p), a)
+                hits.setdefault(a, []).append((what, stmt, why))
+
+            for kind, objs, slots_, target, stmt in object_writes(f.node, env):
+                for p in sorted(objs, key=repr):
+                    if p not in state and p not in alias:
+                        continue
+                    if kind == 'assign':
+                        # an element is (re)placed: harmless if it is set from
+                        # configuration only (lazy creation of a launcher)
+                        why = store_history(
+                            GV, f, kind, target, stmt,
+                            state.get(p) or alias.get(p), tasksrc)
+                        if not why:
+                            continue
+                        why = 'an element is replaced, ' + why
+                    else:
+                        why = 'changed in place'
+                    hit(p, kind, target, stmt, why)
+                for p in sorted(slots_, key=repr):
+                    if p not in state:
+                        continue
+                    why = store_history(GV, f, kind, target, stmt,
+                                        state[p], tasksrc)
+                    if why:
+                        hit(p, kind, target, stmt, why)
+            # the state handed to a callee which changes its argument
+            for c in calls_in(f.node, nested=True):
+                g = prog.resolve_call(f, c, K)
+                if g is None:
+                    continue
+                for pname, arg in param_map(f, c, g):
+                    ps = [p for p in key_paths(arg, env)
+                          if p in state or p in alias]
+                    if not ps:
+                        continue
+                    genv = path_env(g.node, seed={pname: {('@arg',)}})
+                    for kind, objs, _s, target, stmt in object_writes(g.node,
+                                                                      genv):
+                        if ('@arg',) in objs:
+                            hit(ps[0], 'mutate', arg, c,
+                                '%s changes its argument `%s` in place (`%s`)'
+                                % (g.qual, pname, short(stmt, 40)))
+                            break
+            if not hits:
+                rep.ok(rid, f, '%s: %s does not change the selection state '
+                       '(%s)' % (K.name, f.qual, ', '.join(
+                           'self.' + a for a in sorted(attrs))), f.loc())
+                continue
+            for a, hs in sorted(hits.items()):
+                what, stmt, why = hs[0]
+                rep.bad(rid, f, 'self.%s' % a,
+                        '%s.%s changes %s (`%s`%s: %s), which decides the '
+                        'launcher a task gets: the selection is no longer a '
+                        'function of the configured order and the task at '
+                        'hand - the launcher, and with it the command, of a '
+                        'task depends on the tasks handled before it'
+                        % (K.name, f.name, what, short(stmt, 60),
+                           ', %d writes' % len(hs) if len(hs) > 1 else '',
+                           why), f.loc(stmt),
+                        history='order [FORK, MPIRUN]: task A (2 ranks) is '
+                        'refused by FORK and served by MPIRUN; %s leaves '
+                        'self.%s changed; task B (1 rank on the agent node), '
+                        'which a fresh resource manager starts with FORK, is '
+                        'now started by another launcher / another command '
+                        'than without A before it' % (f.name, a))
+
+
+# ------------------------------------------------------------------------------
+# R09.8  the rank count of a command
+#
+# options whose value is the number of processes to start (flavour knowledge,
+# like NODE_OPTS; only used to find the value - what is decided is the shape
+# of that value)
+RANK_OPTS = re.compile(r'(?<![\w-])(--ntasks|--np|-np|-n)[ =]*$')
+
+_NUM_WRAPPERS = {'int', 'float', 'round', 'abs', 'math.ceil', 'math.floor',
+                 'ceil', 'floor', 'math.trunc'}
+
+
+# on the way of leaves(): the leaf is a default / a bound (`x or 1`, max(1, x)),
+# not the value
+SOFT = 'soft'
+
+
+def defs_of(f, name):
+    return [n.value for n in walk(f.node, nested=True)
+            if isinstance(n, ast.Assign) and
+            any(isinstance(t, ast.Name) and t.id == name for t in n.targets)]
+
+
+def leaves(f, e, _seen=(), wrappers=True):
+    """the expressions a numeric value may come from: through locals (every
+    definition), conditional expressions, `or` defaults, max()/min() and
+    numeric wrappers.  [(leaf expr, [nodes passed on the way])]"""
+    out = []
+
+    def rec(e, seen, via):
+        if isinstance(e, ast.Name) and e.id not in seen:
+            ds = [n for n in walk(f.node, nested=True)
+                  if isinstance(n, ast.Assign) and
+                  any(isinstance(t, ast.Name) and t.id == e.id
+                      for t in n.targets)]
+            if ds:
+                for n in ds:
+                    rec(n.value, seen + (e.id,), via + [n])
+                return
+        if isinstance(e, ast.IfExp):
+            rec(e.body, seen, via + [('ifexp', e, True)])
+            rec(e.orelse, seen, via + [('ifexp', e, False)])
+            return
+        if isinstance(e, ast.BoolOp):
+            for v in e.values:
+                rec(v, seen, via + [SOFT])
+            return
+        if isinstance(e, ast.Call) and wrappers:
+            d = dotted(e.func)
+            if d in _NUM_WRAPPERS and len(e.args) >= 1:
+                rec(e.args[0], seen, via)
+                return
+            if d in ('max', 'min') and e.args:
+                for a in e.args:
+                    rec(a, seen, via + [SOFT])
+                return
+        out.append((e, via))
+    rec(e, tuple(_seen), [])
+    return out
+
+
+def node_kind(f, e):
+    """DISTINCT / ADJACENT / PER_SLOT for a collection of nodes which derives
+    from the placement, else None"""
+    if isinstance(e, ast.Name):
+        if not place_derived(f, e.id):
+            return None
+        return classify_name(f, e.id, (e.id,))
+    if not reads_place_or_local(f, e):
+        return None
+    return classify_nodes(f, e)
+
+
+def cfg_node_of(f, node):
+    """cfg node of the statement which evaluates `node`"""
+    g = cfg_of(f)
+    smap = I.stmt_node_map(g)
+    cn = smap.get(id(node))
+    if cn is None:
+        st = enclosing_simple_stmt(f.node, node)
+        if st is not None:
+            cn = smap.get(id(st))
+            if cn is None:
+                for m in walk(st, nested=True):
+                    cn = smap.get(id(m))
+                    if cn is not None:
+                        break
+    return cn
+
+
+def _is_empty_init(v):
+    return (isinstance(v, (ast.List, ast.Dict, ast.Set, ast.Tuple)) and
+            not getattr(v, 'elts', getattr(v, 'keys', None))) or \
+        (isinstance(v, ast.Call) and not v.args and not v.keywords and
+         (dotted(v.func) or '').split('.')[-1] in (
+             'list', 'dict', 'set', 'OrderedDict')) or \
+        (isinstance(v, ast.Call) and (dotted(v.func) or '').split('.')[-1] in
+         ('defaultdict', 'Counter') and
+         not any(reads_place(a) for a in v.args))
+
+
+def site_kind(f, e, at, _seen=None):
+    """node_kind of collection `e` as it is when the statement at cfg node
+    `at` runs: a name is classified by the definitions which reach that
+    statement (a list which is de-duplicated and re-bound to its own name is
+    per-slot before and distinct after)"""
+    seen = set() if _seen is None else _seen
+    for _ in range(4):
+        if isinstance(e, ast.Call) and isinstance(e.func, ast.Name) and \
+                e.func.id in ('list', 'tuple', 'sorted', 'reversed') and \
+                len(e.args) >= 1:
+            e = e.args[0]
+        elif isinstance(e, ast.Call) and isinstance(e.func, ast.Attribute) \
+                and e.func.attr in ('keys', 'copy') and not e.args:
+            e = e.func.value
+        else:
+            break
+    if not isinstance(e, ast.Name) or at is None:
+        return node_kind(f, e)
+    if not place_derived(f, e.id):
+        return None
+    g = cfg_of(f)
+    defs = reaching_defs(g, e.id, at)
+    if not defs:
+        return node_kind(f, e)
+    kinds = []
+    for dn, v in defs:
+        if (e.id, dn.id) in seen:
+            continue
+        seen.add((e.id, dn.id))
+        if v is None:
+            kinds.append(None)
+        elif _is_empty_init(v):
+            k = classify_name(f, e.id, (e.id,), defs_too=False)
+            if k is not None:           # (never filled: stays empty, neutral)
+                kinds.append(k)
+        else:
+            kinds.append(site_kind(f, v, dn.id, seen))
+    if not kinds:
+        return None
+    for k in (ADJACENT, PER_SLOT):
+        if k in kinds:
+            return k
+    return DISTINCT if all(k == DISTINCT for k in kinds) else None
+
+
+def is_len(e):
+    return isinstance(e, ast.Call) and isinstance(e.func, ast.Name) and \
+        e.func.id == 'len' and len(e.args) == 1
+
+
+def counts_nodes(f, e):
+    """e is the number of distinct nodes of the placement: the collection it
+    is the length of, or None"""
+    for l, _ in leaves(f, e):
+        if is_len(l):
+            cn = cfg_node_of(f, l)
+            if site_kind(f, l.args[0], cn.id if cn else None) == DISTINCT:
+                return l.args[0]
+    return None
+
+
+def counts_ranks(f, e):
+    """e contains the number of ranks / slots of the task"""
+    for l, _ in leaves(f, e):
+        for n in walk(l, nested=True):
+            if const_key(n) == 'ranks':
+                return True
+            if is_len(n):
+                a = n.args[0]
+                cn = cfg_node_of(f, n)
+                if slots_expr(f, a) or site_kind(
+                        f, a, cn.id if cn else None) in (PER_SLOT, ADJACENT):
+                    return True
+            if isinstance(n, ast.Call) and dotted(n.func) == 'sum' and n.args \
+                    and any(isinstance(c, ast.Call) and
+                            isinstance(c.func, ast.Attribute) and
+                            c.func.attr == 'values'
+                            for c in walk(n.args[0], nested=True)):
+                return True
+            if isinstance(n, ast.Name) and n is not l and \
+                    counts_ranks_name(f, n.id):
+                return True
+    return False
+
+
+def counts_ranks_name(f, name, _seen=()):
+    if name in _seen:
+        return False
+    return any(count_expr(f, v) for v in defs_of(f, name))
+
+
+def quotients(fnode):
+    """[(node, dividend, divisor)]: a / b, a // b, divmod(a, b)"""
+    for n in walk(fnode, nested=True):
+        if isinstance(n, ast.BinOp) and isinstance(n.op, (ast.Div,
+                                                           ast.FloorDiv)):
+            yield n, n.left, n.right
+        elif isinstance(n, ast.Call) and dotted(n.func) == 'divmod' and \
+                len(n.args) == 2:
+            yield n, n.args[0], n.args[1]
+
+
+def enclosing_simple_stmt(fnode, node):
+    """innermost statement which contains `node` in one of its expressions"""
+    best = None
+    for s in walk(fnode, nested=True):
+        if not isinstance(s, ast.stmt):
+            continue
+        if isinstance(s, (ast.If, ast.While)):
+            roots = [s.test]
+        elif isinstance(s, ast.For):
+            roots = [s.iter]
+        elif isinstance(s, (ast.FunctionDef, ast.AsyncFunctionDef,
+                            ast.ClassDef, ast.Try, ast.With)):
+            continue
+        else:
+            roots = [s]
+        for r in roots:
+            if any(m is node for m in walk(r, nested=True)):
+                best = s
+    return best
+
+
+def value_flows(used, w, f, node):
+    """the value computed at `node` flows (by value) into the command"""
+    s = enclosing_simple_stmt(f.node, node)
+    if s is None or isinstance(s, (ast.If, ast.While, ast.For, ast.Assert)):
+        return False
+    if isinstance(s, ast.Return):
+        return ('RET', w) in used
+    names = []
+    if isinstance(s, ast.Assign):
+        for t in s.targets:
+            names += stores_in_target(t)
+            if isinstance(t, (ast.Subscript, ast.Attribute)):
+                l = Deps.loc(t)
+                if l:
+                    names.append(l)
+    elif isinstance(s, (ast.AugAssign, ast.AnnAssign)):
+        names += stores_in_target(s.target)
+    elif isinstance(s, ast.Expr) and isinstance(s.value, ast.Call):
+        c = s.value
+        if isinstance(c.func, ast.Attribute) and (
+                c.func.attr in ('write', 'writelines') or
+                call_name(c) in FILE_WRITERS):
+            return True
+        if isinstance(c.func, ast.Attribute) and c.func.attr in I.MUTATING:
+            l = Deps.loc(c.func.value)
+            if l:
+                names.append(l)
+    return any((w, n) in used for n in names)
+
+
+def format_sites(fnode):
+    """[(text in front of the value, value expr, node)] of the string
+    formatting below fnode: '..%d..' % v, f'..{v}..', '..{}..'.format(v)"""
+    for n in walk(fnode, nested=True):
+        if isinstance(n, ast.BinOp) and isinstance(n.op, ast.Mod) and \
+                isinstance(n.left, ast.Constant) and \
+                isinstance(n.left.value, str):
+            pre = fmt_placeholders(n.left.value)
+            vals = n.right.elts if isinstance(n.right, ast.Tuple) \
+                else [n.right]
+            if len(pre) == len(vals):
+                for txt, v in zip(pre, vals):
+                    yield txt, v, n
+        elif isinstance(n, ast.JoinedStr):
+            txt = ''
+            for v in n.values:
+                if isinstance(v, ast.Constant) and isinstance(v.value, str):
+                    txt += v.value
+                elif isinstance(v, ast.FormattedValue):
+                    yield txt, v.value, n
+                    txt = ''
+        elif isinstance(n, ast.Call) and isinstance(n.func, ast.Attribute) \
+                and n.func.attr == 'format' and \
+                isinstance(n.func.value, ast.Constant) and \
+                isinstance(n.func.value.value, str) and not n.keywords:
+            parts = re.split(r'\{(?::[^}]*)?\}', n.func.value.value)
+            if len(parts) == len(n.args) + 1 and \
+                    not re.search(r'\{[^}]', ''.join(parts)):
+                for txt, v in zip(parts, n.args):
+                    yield txt, v, n
+
+
+def stable_text(f, e, _seen=()):
+    """text of a test with once-assigned locals replaced by what they hold, or
+    None if something the test reads is written in the function"""
+    e2 = e
+    if isinstance(e, ast.Name) and e.id not in _seen:
+        ds = defs_of(f, e.id)
+        nstores = sum(1 for n in walk(f.node, nested=True)
+                      if isinstance(n, ast.Name) and n.id == e.id and
+                      isinstance(n.ctx, (ast.Store, ast.Del)))
+        if len(ds) == 1 and nstores == 1:
+            return stable_text(f, ds[0], _seen + (e.id,))
+        if nstores:
+            return None
+    for n in walk(e2, nested=True):
+        if isinstance(n, ast.Name) and isinstance(n.ctx, ast.Load) and \
+                n is not e2:
+            nstores = sum(1 for m in walk(f.node, nested=True)
+                          if isinstance(m, ast.Name) and m.id == n.id and
+                          isinstance(m.ctx, (ast.Store, ast.Del)))
+            if nstores > 1:
+                return None
+    for kind, target, stmt in launcher_stores(f.node):
+        a = target if isinstance(target, str) else self_attr_of(target, {})
+        if a and any(isinstance(n, ast.Attribute) and n.attr == a and
+                     isinstance(n.value, ast.Name) and n.value.id == 'self'
+                     for n in walk(e2, nested=True)):
+            return None
+    return unparse(e2)
+
+
+def atom_conds(f, test, pol):
+    """{(text, polarity)} which hold when `test` evaluates to `pol`"""
+    if isinstance(test, ast.UnaryOp) and isinstance(test.op, ast.Not):
+        return atom_conds(f, test.operand, not pol)
+    if isinstance(test, ast.BoolOp):
+        if isinstance(test.op, ast.And) == pol:
+            out = set()
+            for v in test.values:
+                out |= atom_conds(f, v, pol)
+            return out
+        return set()
+    if isinstance(test, ast.Name):
+        ds = defs_of(f, test.id)
+        if len(ds) == 1 and isinstance(ds[0], (ast.UnaryOp, ast.BoolOp)) and \
+                stable_text(f, test) is not None:
+            return atom_conds(f, ds[0], pol)
+    t = stable_text(f, test)
+    return {(t, pol)} if t is not None else set()
+
+
+def conds_at(f, node, via=()):
+    """{(test text, polarity)}: configuration tests which hold whenever the
+    expression `node` is evaluated (control dependence of its statement plus
+    the conditional expressions around it), and on the way `via` of leaves()"""
+    out = set()
+    g = cfg_of(f)
+    smap = I.stmt_node_map(g)
+    cn = smap.get(id(node))
+    if cn is None:
+        s = enclosing_simple_stmt(f.node, node)
+        cn = smap.get(id(s)) if s is not None else None
+        if cn is None and s is not None:
+            for m in walk(s, nested=True):
+                cn = smap.get(id(m))
+                if cn is not None:
+                    break
+    if cn is not None:
+        for tid, lab in guards(g, cn.id):
+            out |= atom_conds(f, g.nodes[tid].ast, lab == 'T')
+    # conditional expressions around the node
+    s = enclosing_simple_stmt(f.node, node)
+    if s is not None:
+        def rec(n, acc):
+            if n is node:
+                out.update(acc)
+                return True
+            for c in ast.iter_child_nodes(n):
+                a = acc
+                if isinstance(n, ast.IfExp):
+                    if c is n.body:
+                        a = acc | atom_conds(f, n.test, True)
+                    elif c is n.orelse:
+                        a = acc | atom_conds(f, n.test, False)
+                if rec(c, a):
+                    return True
+            return False
+        rec(s, set())
+    for v in via:
+        if v is SOFT:
+            continue
+        if isinstance(v, tuple):
+            out |= atom_conds(f, v[1].test, v[2])
+        else:
+            out |= conds_at(f, v.value)
+    return out
+
+
+def compatible(c1, c2):
+    return not any((t, not p) in c2 for t, p in c1)
+
+
+def plain_node_lists(f):
+    """[(site, collection expr)]: collections whose elements are written into
+    the command as they are: sep.join(X), a host file writer, write()"""
+    for c in calls_in(f.node, nested=True):
+        args = []
+        if isinstance(c.func, ast.Attribute) and c.func.attr == 'join' and \
+                len(c.args) == 1:
+            args = [c.args[0]]
+        elif call_name(c) in FILE_WRITERS:
+            args = list(c.args) + [k.value for k in c.keywords]
+        for a in args:
+            yield c, a
+
+
+def distinct_sources(f, e, _seen=()):
+    """[(conds)] one entry for every way the elements of collection `e` come
+    from a de-duplicated collection of the placement's nodes and nothing else
+    (no per-node count travels with them)"""
+    out = []
+    for _ in range(6):
+        if isinstance(e, ast.Call) and isinstance(e.func, ast.Name) and \
+                e.func.id in _ELEM_WRAPPERS and len(e.args) >= 1:
+            e = e.args[0]
+        elif isinstance(e, ast.Call) and isinstance(e.func, ast.Attribute) \
+                and e.func.attr in ('keys', 'copy') and not e.args:
+            e = e.func.value
+        elif isinstance(e, (ast.ListComp, ast.GeneratorExp, ast.SetComp)) \
+                and len(e.generators) == 1:
+            tg = set(stores_in_target(e.generators[0].target))
+            free = {n.id for n in walk(e.elt, nested=True)
+                    if isinstance(n, ast.Name) and
+                    isinstance(n.ctx, ast.Load)} - tg
+            if any(defs_of(f, x) or place_derived(f, x) for x in free):
+                return out          # something else travels with the names
+            if len(tg) != 1:
+                return out
+            e = e.generators[0].iter
+        else:
+            break
+    if isinstance(e, ast.Name):
+        if e.id in _seen:
+            return out
+        ds = [n for n in walk(f.node, nested=True)
+              if isinstance(n, ast.Assign) and
+              any(isinstance(t, ast.Name) and t.id == e.id
+                  for t in n.targets)]
+        direct = False
+        for n in ds:
+            v = n.value
+            if isinstance(v, ast.Name) or not reads_place_or_local(f, v):
+                sub = distinct_sources(f, v, _seen + (e.id,)) \
+                    if isinstance(v, ast.Name) else []
+            else:
+                sub = distinct_sources(f, v, _seen + (e.id,))
+            for c in sub:
+                direct = True
+                out.append(c | conds_at(f, v))
+        if not direct and place_derived(f, e.id) and \
+                classify_name(f, e.id, (e.id,)) == DISTINCT:
+            # built in place: s.add(node) / d[node] = .. / guarded append
+            out.append(set())
+        return out
+    if reads_place_or_local(f, e) and classify_nodes(f, e) == DISTINCT:
+        out.append(set())
+    return out
+
+
+def multiplicity_guard(f):
+    """(text of) a test of the function which may refuse placements with
+    several ranks on a node / uneven placements: the rule cannot tell what is
+    left"""
+    for n in walk(f.node, nested=True):
+        t = None
+        if isinstance(n, ast.Assert):
+            t = n.test
+        elif isinstance(n, ast.If) and any(isinstance(m, ast.Raise)
+                                           for m in walk(n)):
+            t = n.test
+        if t is None:
+            continue
+        for m in walk(t, nested=True):
+            if isinstance(m, ast.Call) and (
+                    dotted(m.func) in ('set', 'frozenset', 'Counter',
+                                       'collections.Counter') or
+                    (isinstance(m.func, ast.Attribute) and
+                     m.func.attr in ('values', 'count'))) and \
+                    reads_place_or_local(f, m):
+                return short(t, 50)
+            if isinstance(m, ast.Name) and place_derived(f, m.id) and \
+                    classify_name(f, m.id, (m.id,)) == DISTINCT:
+                return short(t, 50)
+    return None
+
+
+def refuses_by_multiplicity(prog, K):
+    """can_launch (with its self callees) looks at the nodes of the slots and
+    de-duplicates / counts something: it may refuse the placements a
+    simplified command cannot express"""
+    funcs, _ = reach(prog, K, ['can_launch'])
+    for f in funcs.values():
+        if not reads_place(f.node):
+            continue
+        for n in walk(f.node, nested=True):
+            if isinstance(n, (ast.SetComp, ast.DictComp)):
+                return f
+            if isinstance(n, ast.Call):
+                d = dotted(n.func) or ''
+                if d.split('.')[-1] in ('set', 'frozenset', 'Counter',
+                                        'fromkeys', 'groupby', 'count',
+                                        'values', 'defaultdict'):
+                    return f
+    return None
+
+
+def r09_8(prog, rep, classes, rid='R09.8', minimum=13, floor=8):
+    rep.rule(rid, 'the number of processes a command asks for is the number '
+             'of slots / ranks of the task: no value of the command is a '
+             'quotient of the rank count by the number of distinct nodes '
+             '(an average is wrong for every uneven placement), a rank count '
+             'option is not fed with the number of distinct nodes, and a '
+             'constant rank count (N per host entry) is not combined with a '
+             'de-duplicated host list', minimum=minimum)
+    total = 0
+    for K in classes:
+        f0 = prog.find_method(K, 'get_launch_cmds')
+        if f0 is None or always_raises(f0):
+            rep.ok(rid, K, '%s: builds no command' % K.name)
+            continue
+        G = graph(prog, K, ['get_launch_cmds'], implicit=False, control=False)
+        used = G.closure([('RET', f0.where), ('FILE', '')])
+        nbad, nq, nopt = 0, 0, 0
+        for w in sorted(G.funcs):
+            f = G.funcs[w]
+            rep.saw(f)
+            _PLACE_DERIVED[f.where] = place_pred(G, w)
+            guard = None
+            rf = refuses_by_multiplicity(prog, K)
+            if rf is not None:
+                guard = '%s, which counts the nodes of the slots' % rf.qual
+            # (a) averages
+            for node, num, den in quotients(f.node):
+                nodes = counts_nodes(f, den)
+                if nodes is None or not counts_ranks(f, num):
+                    continue
+                nq += 1
+                if not value_flows(used, w, f, node):
+                    continue
+                guard = guard or multiplicity_guard(f)
+                if guard is not None:
+                    raise AnalysisError(
+                        'UNRECOGNISED-IDIOM %s: `%s` averages the ranks over '
+                        'the nodes, and `%s` tests the multiplicity of the '
+                        'nodes: cannot tell which placements are left'
+                        % (f.where, short(node, 50), guard))
+                nbad += 1
+                rep.bad(rid, f, '%s:average' % K.name,
+                        '%s.%s puts `%s` into the command: the number of '
+                        'ranks divided by the number of distinct nodes '
+                        '(`%s`) is an average - for a placement with '
+                        'different numbers of ranks per node the command '
+                        'starts a wrong number of processes on a node / in '
+                        'total, and the launcher does not refuse such a task'
+                        % (K.name, f.name, short(node, 60), short(nodes, 40)),
+                        f.loc(node),
+                        history='task with 3 ranks placed 2 on node a, 1 on '
+                        'node b: 3 // 2 = 1 process per node = 2 processes; '
+                        '3 ranks on a and 1 on b: 2 + 2 instead of 3 + 1')
+            # (b) what feeds the rank count options
+            consts = []
+            for txt, v, site in format_sites(f.node):
+                m = RANK_OPTS.search(txt)
+                if not m:
+                    continue
+                nopt += 1
+                for l, via in leaves(f, v):
+                    cn = cfg_node_of(f, l) if is_len(l) else None
+                    if is_len(l) and site_kind(
+                            f, l.args[0], cn.id if cn else None) == DISTINCT:
+                        nbad += 1
+                        rep.bad(rid, f, '%s:%s:nodes' % (K.name, m.group(1)),
+                                '%s.%s feeds `%s` with `%s`: the number of '
+                                'distinct nodes of the placement, not the '
+                                'number of ranks - a node which holds several '
+                                'ranks is counted once'
+                                % (K.name, f.name, m.group(1), short(l, 50)),
+                                f.loc(site),
+                                history='2 ranks on node a, 1 on node b: the '
+                                'command asks for 2 processes')
+                    elif isinstance(l, ast.Constant) and SOFT not in via and \
+                            isinstance(l.value, int) and \
+                            not isinstance(l.value, bool):
+                        consts.append((m.group(1), l, conds_at(f, l, via) |
+                                       conds_at(f, site)))
+            # (c) constant count (N per host entry) and de-duplicated hosts
+            if consts:
+                for site, coll in plain_node_lists(f):
+                    if not value_flows(used, w, f, site):
+                        continue
+                    srcs = distinct_sources(f, coll)
+                    if not srcs:
+                        continue
+                    cs = conds_at(f, site)
+                    for opt, l, c1 in consts:
+                        if not any(compatible(c1, c2 | cs) and
+                                   compatible(c1 | c2, cs) for c2 in srcs):
+                            continue
+                        guard = guard or multiplicity_guard(f)
+                        if guard is not None:
+                            raise AnalysisError(
+                                'UNRECOGNISED-IDIOM %s: constant rank count '
+                                'with a de-duplicated host list, and `%s` '
+                                'tests the multiplicity of the nodes'
+                                % (f.where, guard))
+                        nbad += 1
+                        rep.bad(rid, f, '%s:%s:constant' % (K.name, opt),
+                                '%s.%s gives `%s` the constant %r while the '
+                                'host list written by `%s` names every node '
+                                'of the placement once%s: how many ranks the '
+                                'scheduler put on a node does not reach the '
+                                'command'
+                                % (K.name, f.name, opt, l.value,
+                                   short(site, 50),
+                                   ' (when %s)' % ' and '.join(sorted(
+                                       '%s%s' % ('' if p else 'not ', t)
+                                       for t, p in c1)) if c1 else ''),
+                                f.loc(site),
+                                history='2 ranks on node a, 1 on node b: the '
+                                'command names a,b and starts %r process(es) '
+                                'per entry - 2 processes for 3 ranks'
+                                % l.value)
+                        break
+        total += nopt
+        if not nbad:
+            rep.ok(rid, f0, '%s: %d rank count option(s), %d quotient(s) of '
+                   'rank and node counts: none averages, none counts nodes, '
+                   'no constant count with de-duplicated hosts'
+                   % (K.name, nopt, nq), f0.loc())
+    rep.stat('R09.8 rank count options', total)
+    if total < floor:
+        raise AnalysisError('R09.8 recognised only %d rank count options in '
+                            'all launchers (expected >= %d): the recogniser '
+                            'no longer sees how the commands are formatted'
+                            % (total, floor))
+
+
+# ------------------------------------------------------------------------------
 #
 def run(prog, rep, tier):
     rep.decided = ('launcher purity: no attribute of the launcher object that '
@@ -1699,12 +2771,22 @@ def run(prog, rep, tier):
         'collections a launcher reduces the slots to (set, dict keys, '
         'groupby) and what feeds --nodes / --nodelist style options are '
         'distinct by construction for any slot order; Fork-like launchers '
-        'accept only after an exact node name comparison.')
+        'accept only after an exact node name comparison; nothing reachable '
+        'from find_launcher / get_launcher changes the launch order, the '
+        'launcher table or the configuration object they alias; no value of a '
+        'command is an average of ranks over nodes, no rank count option is '
+        'fed with the number of distinct nodes, no constant rank count is '
+        'combined with a de-duplicated host list under compatible '
+        'configuration tests.')
     rep.undecided = ('option semantics of each MPI flavour (whether -host, '
         '-rf, --nodelist, ERF syntax do what the placement says), may-depend '
         'only: a launcher which names the nodes on one of its branches passes '
         '(JSRUN names nodes only in ERF mode, Srun only the node set); '
-        'core / GPU pinning.')
+        'core / GPU pinning; whether a de-duplicated node list plus a total '
+        'rank count (Srun) is distributed as placed; writes of find_launcher '
+        'into attributes of the launcher objects themselves (R09.1 covers '
+        'the launchers\' own methods only); `alias += [..]` on a local alias '
+        'of the launch order.')
     rep.assumptions = [
         'no monkey patching / setattr with computed names on launcher '
         'objects; launchers outside the package are not analysed',
@@ -1720,12 +2802,16 @@ def run(prog, rep, tier):
     if len(classes) < 13:
         raise AnalysisError('LaunchMethod.create lists only %d classes '
                             '(expected >= 13)' % len(classes))
-    r09_1(prog, rep, classes)
-    r09_2(prog, rep, classes)
-    r09_3(prog, rep, classes)
-    r09_4(prog, rep, classes)
-    r09_5(prog, rep, classes)
-    r09_6(prog, rep, classes)
+    # (a rule which cannot analyse its anchors does not hide what the other
+    # rules find: main._try decides)
+    rep.attempt(r09_1, prog, rep, classes)
+    rep.attempt(r09_2, prog, rep, classes)
+    rep.attempt(r09_3, prog, rep, classes)
+    rep.attempt(r09_4, prog, rep, classes)
+    rep.attempt(r09_5, prog, rep, classes)
+    rep.attempt(r09_6, prog, rep, classes)
+    rep.attempt(r09_7, prog, rep)
+    rep.attempt(r09_8, prog, rep, classes)
     if tier == 'thorough':
         base = prog.cls(*LM_BASE)
         extra = [k for k in prog.subclasses(base, strict=True)
@@ -1939,6 +3025,106 @@ SILENT += [
         (_L + 'fork.py', "        if node not in ['localhost', self.node_name]:\n            return False, 'not on localhost'\n", "        if node in ('localhost', self.node_name):\n            pass\n        else:\n            return False, 'not on localhost'\n")]),
     dict(name='fork locality test against a set kept in a local', edits=[
         (_L + 'fork.py', "        if node not in ['localhost', self.node_name]:", "        local = {'localhost', self.node_name}\n        if node not in local:")]),
+]
+
+
+# ------------------------------------------------------------------------------
+# R09.7 / R09.8 (seeds C09-c, C09-d and variants of the same mistakes)
+#
+_FL_LOOP   = "        for name in self._launch_order:\n\n            launcher = self._launchers[name]"
+_FL_ACCEPT = "            if lm_can_launch:\n                return launcher, name\n            else:"
+_FL_HEAD   = "        errors = list()\n        for name in self._launch_order:"
+_MR_NP     = "        if self._mpt: np = 1\n        else        : np = len(host_list)\n"
+_MR_DPLACE = "            dplace += ','.join(core_list)\n"
+_MR_MPTSTR = "            if self._mpt: mpt_hosts_string = '%s'       % ','.join(host_list)\n"
+
+MUTATIONS += [
+    dict(name='R09.7 find_launcher moves the serving launcher to the front (seed C09-c)', rules=('R09.7',), edits=[
+        (_R, _FL_LOOP, "        for idx, name in enumerate(self._launch_order):\n\n            launcher = self._launchers[name]"),
+        (_R, _FL_ACCEPT, "            if lm_can_launch:\n                if idx:\n                    self._launch_order.insert(0, self._launch_order.pop(idx))\n                return launcher, name\n            else:")]),
+    dict(name='R09.7 move to front through a local alias of the order', rules=('R09.7',), edits=[
+        (_R, _FL_HEAD, "        errors = list()\n        order  = self._launch_order\n        for name in list(order):"),
+        (_R, _FL_ACCEPT, "            if lm_can_launch:\n                order.remove(name)\n                order.insert(0, name)\n                return launcher, name\n            else:")]),
+    dict(name='R09.7 order rebuilt with the serving launcher first', rules=('R09.7',), edits=[
+        (_R, _FL_ACCEPT, "            if lm_can_launch:\n                self._launch_order = [name] + [n for n in self._launch_order\n                                               if n != name]\n                return launcher, name\n            else:")]),
+    dict(name='R09.7 round robin: the order is rotated after every task', rules=('R09.7',), edits=[
+        (_R, _FL_ACCEPT, "            if lm_can_launch:\n                self._launch_order.append(self._launch_order.pop(0))\n                return launcher, name\n            else:")]),
+    dict(name='R09.7 move to front in the configured order list (alias of the order)', rules=('R09.7',), edits=[
+        (_R, _FL_ACCEPT, "            if lm_can_launch:\n                cfg_order = self._rm_info.launch_methods['order']\n                cfg_order.insert(0, cfg_order.pop(cfg_order.index(name)))\n                return launcher, name\n            else:")]),
+    dict(name='R09.7 a launcher which refused once is never asked again', rules=('R09.7',), edits=[
+        (_R, _FL_HEAD, "        errors = list()\n        for name in list(self._launch_order):"),
+        (_R, "            else:\n                errors.append([name, err_message])", "            else:\n                errors.append([name, err_message])\n                self._launch_order.remove(name)")]),
+    dict(name='R09.7 move to front in a helper which gets the order as argument', rules=('R09.7',), edits=[
+        (_R, _FL_LOOP, "        for idx, name in enumerate(self._launch_order):\n\n            launcher = self._launchers[name]"),
+        (_R, _FL_ACCEPT, "            if lm_can_launch:\n                self._prefer(self._launch_order, idx)\n                return launcher, name\n            else:"),
+        (_R, "    def get_launcher(self, lname):\n", "    def _prefer(self, names, pos):\n\n        names.insert(0, names.pop(pos))\n\n\n    # --------------------------------------------------------------------------\n    #\n    def get_launcher(self, lname):\n")]),
+    dict(name='R09.7 get_launcher hands every launcher out once', rules=('R09.7',), edits=[
+        (_R, "        return self._launchers[lname]\n", "        return self._launchers.pop(lname)\n")]),
+    dict(name='R09.8 mpirun mpt: distinct hosts and -np = ranks // hosts (seed C09-d)', rules=('R09.8',), edits=[
+        (_L + 'mpirun.py', _MR_NP, ""),
+        (_L + 'mpirun.py', _MR_DPLACE, _MR_DPLACE + "\n        if self._mpt:\n            hosts     = list(dict.fromkeys(host_list))\n            np        = len(host_list) // len(hosts)\n            host_list = hosts\n        else:\n            np = len(host_list)\n")]),
+    dict(name='R09.8 mpirun mpt: host list de-duplicated under its own name, np //= hosts (seed C09-e)', rules=('R09.8',), edits=[
+        (_L + 'mpirun.py', _MR_NP, ""),
+        (_L + 'mpirun.py', _MR_DPLACE, _MR_DPLACE + "\n        np = len(host_list)\n        if self._mpt:\n            host_list = list(dict.fromkeys(host_list))\n            np        = np // len(host_list)\n")]),
+    dict(name='R09.8 mpirun mpt: average spelled int(len(slots) / len(set(..)))', rules=('R09.8',), edits=[
+        (_L + 'mpirun.py', _MR_NP, "        if self._mpt: np = int(len(slots) / len(set(host_list)))\n        else        : np = len(host_list)\n"),
+        (_L + 'mpirun.py', _MR_MPTSTR, "            if self._mpt: mpt_hosts_string = '%s'       % ','.join(sorted(set(host_list)))\n")]),
+    dict(name='R09.8 mpiexec pals: --ppn as average instead of maximum', rules=('R09.8',), edits=[
+        (_L + 'mpiexec.py', "'--ppn %d '           % max(host_slots.values())", "'--ppn %d '           % (len(slots) // len(host_slots))")]),
+    dict(name='R09.8 mpirun: -np counts the distinct hosts', rules=('R09.8',), edits=[
+        (_L + 'mpirun.py', _MR_NP, "        if self._mpt: np = 1\n        else        : np = len(set(host_list))\n")]),
+    dict(name='R09.8 mpirun mpt: every host named once, still -np 1', rules=('R09.8',), edits=[
+        (_L + 'mpirun.py', _MR_MPTSTR, "            if self._mpt: mpt_hosts_string = '%s'       % ','.join(dict.fromkeys(host_list))\n")]),
+    dict(name='R09.7 find_launcher sorts the order in place', rules=('R09.7',), edits=[
+        (_R, _FL_HEAD, "        errors = list()\n        self._launch_order.sort()\n        for name in self._launch_order:")]),
+    dict(name='R09.7 the launcher of the last task is asked first (remembered in an attribute)', rules=('R09.7',), edits=[
+        (_R, _FL_HEAD, "        errors = list()\n        self._last = getattr(self, '_last', None)\n        for name in ([self._last] if self._last else []) + self._launch_order:"),
+        (_R, _FL_ACCEPT, "            if lm_can_launch:\n                self._last = name\n                return launcher, name\n            else:")]),
+    dict(name='R09.8 mpirun mpt: average over the keys of a per-host count dict', rules=('R09.8',), edits=[
+        (_L + 'mpirun.py', _MR_NP, "        counts = dict()\n        for h in host_list:\n            counts[h] = counts.get(h, 0) + 1\n        if self._mpt: np = len(host_list) // len(counts)\n        else        : np = len(host_list)\n"),
+        (_L + 'mpirun.py', _MR_MPTSTR, "            if self._mpt: mpt_hosts_string = '%s'       % ','.join(counts)\n")]),
+    dict(name='R09.8 srun: --ntasks-per-node as rounded up average', rules=('R09.8',), edits=[
+        (_L + 'srun.py', "            mapping += '--nodes %d ' % n_nodes \\\n", "            mapping += '--ntasks-per-node %d ' % int(math.ceil(n_tasks / n_nodes)) + '--nodes %d ' % n_nodes \\\n")]),
+    dict(name='R09.8 srun: --ntasks counts the nodes', rules=('R09.8',), edits=[
+        (_L + 'srun.py', "                    +  '--ntasks %d' % n_tasks", "                    +  '--ntasks %d' % len(nodelist)")]),
+]
+
+SILENT += [
+    dict(name='find_launcher: order through a local, enumerate, renamed locals', edits=[
+        (_R, _FL_HEAD + "\n\n            launcher = self._launchers[name]\n            lm_can_launch, err_message = launcher.can_launch(task)",
+         "        errors = list()\n        order  = self._launch_order\n        for pos, name in enumerate(order):\n\n            launcher = self._launchers[name]\n            lm_can_launch, err_message = launcher.can_launch(task)")]),
+    dict(name='find_launcher: refusals collected in a local dict', edits=[
+        (_R, "        errors = list()\n        for name in self._launch_order:", "        errors = dict()\n        asked  = list()\n        for name in self._launch_order:\n            asked.append(name)"),
+        (_R, "                errors.append([name, err_message])", "                errors[name] = err_message"),
+        (_R, "        for name, error in errors:", "        for name, error in errors.items():")]),
+    dict(name='find_launcher counts its calls in an attribute the selection never reads', edits=[
+        (_R, _FL_HEAD, "        self._n_lookups = getattr(self, '_n_lookups', 0) + 1\n" + _FL_HEAD)]),
+    dict(name='find_launcher asks through an extracted helper method', edits=[
+        (_R, "            lm_can_launch, err_message = launcher.can_launch(task)\n", "            lm_can_launch, err_message = self._ask(launcher, task)\n"),
+        (_R, "    def get_launcher(self, lname):\n", "    def _ask(self, lm, task):\n\n        return lm.can_launch(task)\n\n\n    # --------------------------------------------------------------------------\n    #\n    def get_launcher(self, lname):\n")]),
+    dict(name='find_launcher counts the questions in an attribute of the launcher asked', edits=[
+        (_R, "            launcher = self._launchers[name]\n", "            launcher = self._launchers[name]\n            launcher._asked = getattr(launcher, '_asked', 0) + 1\n")]),
+    dict(name='get_launcher through .get()', edits=[
+        (_R, "        if lname not in self._launchers:\n            raise ValueError('no such launcher %s' % lname)\n\n        return self._launchers[lname]\n",
+         "        found = self._launchers.get(lname)\n        if found is None:\n            raise ValueError('no such launcher %s' % lname)\n\n        return found\n")]),
+    dict(name='mpirun: -np computed before the host strings, conditional expression', edits=[
+        (_L + 'mpirun.py', _MR_NP, ""),
+        (_L + 'mpirun.py', _MR_DPLACE, _MR_DPLACE + "\n        np = 1 if self._mpt else len(host_list)\n")]),
+    dict(name='mpirun: number of host entries hoisted into a local', edits=[
+        (_L + 'mpirun.py', "        if len(host_list) > 42:\n", "        n_entries = len(host_list)\n        if n_entries > 42:\n"),
+        (_L + 'mpirun.py', _MR_NP, "        if self._mpt: np = 1\n        else        : np = n_entries\n")]),
+    dict(name='mpirun: number of distinct nodes only logged', edits=[
+        (_L + 'mpirun.py', _MR_NP, _MR_NP + "        nodes = set(host_list)\n        self._log.debug('%s: %d ranks on %d nodes', uid, len(host_list),\n                        len(nodes))\n")]),
+    dict(name='mpirun: per-rank host list by comprehension', edits=[
+        (_L + 'mpirun.py', "        host_list = list()\n", "        host_list = [slot['node_name'] for slot in slots]\n"),
+        (_L + 'mpirun.py', "            host_list.append(slot['node_name'])\n", "")]),
+    dict(name='mpirun (not mpt): hosts named once with their rank count, -np total', edits=[
+        (_L + 'mpirun.py', "            else        : hosts_string     = '-host %s' % ','.join(host_list)\n",
+         "            else        : hosts_string     = '-host %s' % ','.join(\n                '%s:%d' % (h, host_list.count(h))\n                for h in dict.fromkeys(host_list))\n")]),
+    dict(name='mpiexec: -np as the number of slots', edits=[
+        (_L + 'mpiexec.py', "        cmd_options = '-np %d ' % sum(host_slots.values())", "        cmd_options = '-np %d ' % len(slots)")]),
+    dict(name='mpiexec pals: ranks per node through a local, maximum kept', edits=[
+        (_L + 'mpiexec.py', "            cmd_options += '--ppn %d '           % max(host_slots.values()) + \\\n", "            per_node     = list(host_slots.values())\n            cmd_options += '--ppn %d '           % max(per_node) + \\\n")]),
 ]
 
 
